@@ -344,7 +344,7 @@ def gen(rng, tier):
                     rng.shuffle(out)
                     return out or [(1 << 191, (1 << 126) + (1 << 64) - 1)]
                 g2 = group((k, "knuth2", t), knuth2)
-                for (aa, d) in take(g2, max(6, N // 2)):
+                for (aa, d) in take(g2, len(g2[0])):      # the whole list for every form: no rotating sample
                     x = aa if k == 1 else rng.choice([aa, -aa])
                     sd = d if (k == 1 or NAMES[t] == "u128" or rng.randrange(2)) else -d
                     reqs.append("C10 form %d %s %s" % (i, wb(k, x), ws(t, sd)))
